@@ -111,7 +111,11 @@ func moduleInterface(cc *ssa.CallCommon) bool {
 	t := cc.Value.Type()
 	for {
 		switch x := t.(type) {
-		case interface{ Obj() interface{ Pkg() interface{ Path() string } } }:
+		case interface {
+			Obj() interface {
+				Pkg() interface{ Path() string }
+			}
+		}:
 			_ = x
 		}
 		break
@@ -121,9 +125,9 @@ func moduleInterface(cc *ssa.CallCommon) bool {
 }
 
 type ReachOpts struct {
-	SkipGo   bool                         // do not follow `go` statements (synchronous reachability)
-	SkipRefs bool                         // do not follow function-value edges
-	Stop     func(fn *ssa.Function) bool  // do not expand these functions (they may still be reported as reached)
+	SkipGo   bool                        // do not follow `go` statements (synchronous reachability)
+	SkipRefs bool                        // do not follow function-value edges
+	Stop     func(fn *ssa.Function) bool // do not expand these functions (they may still be reported as reached)
 }
 
 // Reach computes the functions reachable from roots; parent edges allow path reconstruction.
